@@ -29,6 +29,8 @@ def run(ctx):
     runs = [("hist3", dict(base, MaxHist=3), 80000 if q else None),
             ("hist4-narrow", dict(base, NLeaf=0, Names={"a"}, ParSizes=[2], ParRg=[True], MaxSeq=0, MaxHist=4, Acts={"setattr", "mode", "freeze"}), 60000 if q else None),
             # gradients held by parameters across freeze / zero_grad / unfreeze
+            # attribute names with a leading underscore are attributes like any other
+            ("hist3-underscore", dict(base, NMods=2, NLeaf=1, Names={"_a", "b"}, MaxHist=3), 60000 if q else None),
             ("hist5-grads", dict(base, NMods=1, NLeaf=0, Names={"a"}, ParSizes=[2], ParRg=[True], MaxSeq=0, MaxHist=5, Acts={"setattr", "grad", "freeze", "zero"}), 60000 if q else None),
             # a block that owns a parameter and a child with its own parameter: freeze / unfreeze / zero_grad / train / eval on either node
             ("hist5-block", dict(base, NMods=2, NLeaf=0, Names={"a"}, ParSizes=[2, 3], ParRg=[True, True], MaxSeq=0, MaxHist=5 if q else 6, InitTree="block",
